@@ -374,22 +374,15 @@ def text_render(ctx: Ctx, I: Interp) -> None:
                 self.value = [value]
         items_: List[Any] = []
         maps_: List[Any] = []
-        for e in calls:
-            q_ = getattr(e.target, "qual", "")
-            if q_ == "TagList.append":
-                items_ += [_Add(v_) for v_ in (e.value or [])]
-            elif q_ == "TagList.extend" and e.value:
-                v_ = e.value[0]
-                if isinstance(v_, SList) and v_.mode == "concrete":
-                    for i_ in v_.items:
-                        if isinstance(i_, SSplat):
-                            maps_.append(_Add(i_.value))
-                        else:
-                            items_.append(_Add(i_))
-                elif isinstance(v_, (list, tuple)):
-                    items_ += [_Add(i_) for i_ in v_]
-                else:
-                    maps_.append(_Add(v_))
+        # the tag list that is rendered into the placeholder: what it was constructed with and what was added to it
+        from .c11 import container_adds
+        rend_ = [e for e in calls if getattr(e.target, "qual", "") == "TagList.render"]
+        conts_ = [rend_[0].key] if rend_ else []
+        if not conts_:
+            conts_ = list({id(e.key): e.key for e in calls if getattr(e.target, "qual", "") in ("TagList.append", "TagList.extend")}.values())
+        for c_ in conts_:
+            for k_, v_, _ in container_adds(l.effects, c_, ctor=True):
+                (items_ if k_ == "item" else maps_).append(_Add(v_))
         lst = [a_ for a_ in items_ if isinstance(a_.value[0], SNew) and a_.value[0].args[:1] == ("script",)]
         for e in lst:
             t = e.value[0]
